@@ -119,8 +119,14 @@ def gen_history(rng, n, ng_heavy=False):
             h.append(['register', rng.choice(['n', 'f', 'p']), rng.choice((1, 1, 2))])
         elif k < 0.56:
             h.append(['clear'])
-        elif k < 0.61:
+        elif k < 0.585:
             h.append(['atomid', rng.choice('ab')])
+        elif k < 0.6:
+            # facts made of plain Python constants; every engine uses its own type for "one" and "zero" (1 / 1.0 / True)
+            h.append(rng.choice([['assertc', rng.randrange(2)], ['queryc'], ['queryc']]))
+        elif k < 0.61:
+            # an empty-list answer whose Python value the client then extends (the value is the client's)
+            h.append(['emptylist'])
         elif k < 0.74:
             h.append(['start', rng.choice(QUERIES)])
         elif k < 0.9:
@@ -233,6 +239,22 @@ class EngineRun:
             args = [x] + ([yp.variable() for _ in range(11)] if op[1] else [yp.atom('m%d' % j) for j in range(11)]) + [y]
             self.tasks.append([GenTask(yp.query('wz', args)), yp.functor('pair', [x, y])])
             return None
+        if kind == 'assertc':
+            variant = (int, float, bool)[int(self.tag) % 3] if self.tag.isdigit() else int
+            yp.assert_fact(yp.atom('cst'), [variant(op[1])])
+            return None
+        if kind == 'queryc':
+            x = yp.variable()
+            return [repr(to_python(x)) for _ in yp.query('cst', [x])][:50]
+        if kind == 'emptylist':
+            x = yp.variable()
+            out = []
+            for _ in yp.query('findall', [yp.atom('nothing'), yp.functor('never_defined_goal', [yp.atom('z')]), x]):
+                v = to_python(x)
+                out.append(repr(v))
+                if isinstance(v, list):
+                    v.append('junk' + self.tag)
+            return out
         if kind == 'maxtasks':
             self.max_tasks = op[1]
             return None
